@@ -431,7 +431,7 @@ func handleViolation(p *Property, ep *Episode, seed uint64, v Viol, sum *Summary
 	if known == "" {
 		known = matchKnown(p, ep2, *v2)
 	}
-	rf := &ReplayFile{Property: p.ID, Clause: bv.Clause, Msg: bv.Msg, Seed: seed, Cfg: best.Cfg, Prog: best.Prog, Tape: best.Res.Tape, Steps: best.Res.Steps,
+	rf := &ReplayFile{Property: p.ID, Clause: bv.Clause, Msg: bv.Msg, Seed: best.Seed, Cfg: best.Cfg, Prog: best.Prog, Tape: best.Res.Tape, Steps: best.Res.Steps,
 		Known: known, Minimised: !*fNoMin, OrigOps: orig, Ops: countOps(best.Prog), Preempts: countPreempt(best.Res.Tape), Trace: renderTrace(best)}
 	name := fmt.Sprintf("%s-%s-%d.json", p.ID, strings.ReplaceAll(bv.Clause, ".", "_"), seed)
 	if known != "" {
@@ -503,18 +503,30 @@ func cloneProg(p *Program) *Program {
 // keeps failing (ddmin over ops, then toward the non-preemptive normal form).
 func minimise(p *Property, ep *Episode, seed uint64, clause string) *Episode {
 	best := ep
-	budget := 500
-	deadline := time.Now().Add(25 * time.Second)
+	budget := 1500
+	deadline := time.Now().Add(20 * time.Second)
+	research := 0
 	try := func(cfg Cfg, prog *Program, tape []uint32) bool {
 		if budget <= 0 || time.Now().After(deadline) {
 			return false
 		}
 		budget--
-		e := runEpisode(p, cfg, prog, seed, tape, false)
+		e := runEpisode(p, cfg, prog, best.Seed, tape, false)
 		v := p.firstOwned(e.Viols)
 		if v != nil && v.Clause == clause && e.Res.Verdict != simrt.VInternal {
 			best = e
 			return true
+		}
+		// a smaller program shifts every later decision: the old tape rarely fits.
+		// Search a few fresh schedules for the candidate instead of giving it up.
+		for i := 0; i < research && budget > 0 && time.Now().Before(deadline); i++ {
+			budget--
+			e := runEpisode(p, cfg, prog, mix(best.Seed, 0x5eed, uint64(budget)), nil, false)
+			v := p.firstOwned(e.Viols)
+			if v != nil && v.Clause == clause && e.Res.Verdict != simrt.VInternal {
+				best = e
+				return true
+			}
 		}
 		return false
 	}
@@ -528,6 +540,7 @@ func minimise(p *Property, ep *Episode, seed uint64, clause string) *Episode {
 		try(c, best.Prog, best.Res.Tape)
 	}
 	// drop whole tasks, then ops (chunks of decreasing size)
+	research = 3
 	for changed := true; changed && budget > 0 && time.Now().Before(deadline); {
 		changed = false
 		for ti := 0; ti < len(best.Prog.Tasks) && time.Now().Before(deadline); ti++ {
@@ -555,6 +568,7 @@ func minimise(p *Property, ep *Episode, seed uint64, clause string) *Episode {
 		}
 	}
 	// schedule: zero chunks of the tape (stay on the current task / no fault)
+	research = 0
 	tape := append([]uint32(nil), best.Res.Tape...)
 	for sz := len(tape); sz >= 1 && budget > 0 && time.Now().Before(deadline); sz /= 2 {
 		for at := 0; at+sz <= len(tape) && budget > 0 && time.Now().Before(deadline); at += sz {
@@ -580,7 +594,7 @@ func minimise(p *Property, ep *Episode, seed uint64, clause string) *Episode {
 		}
 	}
 	// final: strict re-run of the winner so that the stored tape is exact
-	e := runEpisode(p, best.Cfg, best.Prog, seed, best.Res.Tape, true)
+	e := runEpisode(p, best.Cfg, best.Prog, best.Seed, best.Res.Tape, true)
 	if v := p.firstOwned(e.Viols); v != nil && v.Clause == clause && !e.Diverged {
 		return e
 	}
